@@ -72,6 +72,7 @@ package encoder
 //@ func DecodeObject
 //@ params r
 //@ requires r != nil
+//@ modifies *
 //@ property C18
 
 //@ func decodeBytecodeV2
